@@ -102,11 +102,18 @@ pub fn expand_backslash_escapes(
             '\"' if matches!(mode, EscapeExpansionMode::AnsiCQuotes) => result.push(b'\"'),
             '?' if matches!(mode, EscapeExpansionMode::AnsiCQuotes) => result.push(b'?'),
             '0' => {
-                // Consume 0-3 valid octal chars
+                // Consume 0-3 valid octal chars. N.B. In `$'...'` an octal escape has at most
+                // three digits *including* the leading zero (`$'\0010'` is \001 followed by `0`);
+                // only `echo -e` / `printf %b` take `\0` plus up to three more.
+                let max_digits = if matches!(mode, EscapeExpansionMode::AnsiCQuotes) {
+                    2
+                } else {
+                    3
+                };
                 let mut taken_so_far = 0;
                 let mut octal_chars: String = it
                     .take_while_ref(|c| {
-                        if taken_so_far < 3 && matches!(*c, '0'..='7') {
+                        if taken_so_far < max_digits && matches!(*c, '0'..='7') {
                             taken_so_far += 1;
                             true
                         } else {
